@@ -146,6 +146,9 @@ fn main() {
             .unwrap_or_else(|| vec!["vm".into(), "wasm".into()]);
         set_src_path(case.get("path").and_then(|p| p.as_str()));
         let mut res = json!({"id": case["id"]});
+        if case["typecheck"].as_bool().unwrap_or(false) {
+            res["typecheck"] = json!(typecheck_verdict(case["src"].as_str().unwrap_or(""), case["sched"].as_bool().unwrap_or(false)));
+        }
         if backends.iter().any(|b| b == "vm") {
             res["vm"] = run_vm(&case);
         }
